@@ -7,7 +7,7 @@
 #include "yaep.h"
 
 #define MAXT 4
-#define MAXR 4
+#define MAXR 12
 #define MAXRHS 3
 static const char *tname[MAXT]; static int tcode[MAXT]; static int nt;
 struct xr { const char *lhs; const char *rhs[MAXRHS + 1]; int n; const char *anode; int cost; int has_tr; int tr[5]; };
@@ -156,6 +156,20 @@ void harness (void)
       len = R[0].has_tr ? sx_choice ("trlen", 4) : 0;
       for (j = 0; j < len; j++) { int v = sx_int ("tr"); sx_assume (v >= 0); R[0].tr[j] = v; }
       R[0].tr[len] = -1;
+    }
+  else if (family == 4)
+    { /* chains: N0 : t | N1 | N0 N0 ; Ni : t | Ni+1 ; Nd : t or empty - nullability has to travel up the chain
+         before the self-derivation of N0 (through its nullable sibling) becomes visible */
+      static const char *const nn[6] = { "N0", "N1", "N2", "N3", "N4", "N5" };
+      int d = 1 + sx_choice ("depth", (int) sx_param ("maxdepth", 4)), last_empty = sx_choice ("last_empty", 2), dup = sx_choice ("dup", 2), with_t = sx_choice ("with_t", 2);
+      nr = 0;
+      for (i = 0; i < d; i++)
+        {
+          if (with_t || i == 0) { R[nr].lhs = nn[i]; R[nr].n = 1; R[nr].rhs[0] = "a"; R[nr].anode = NULL; R[nr].cost = 0; R[nr].has_tr = 0; nr++; }
+          R[nr].lhs = nn[i]; R[nr].n = 1; R[nr].rhs[0] = nn[i + 1]; R[nr].anode = NULL; R[nr].cost = 0; R[nr].has_tr = 0; nr++;
+          if (i == 0 && dup) { R[nr].lhs = nn[0]; R[nr].n = 2; R[nr].rhs[0] = nn[0]; R[nr].rhs[1] = nn[0]; R[nr].anode = NULL; R[nr].cost = 0; R[nr].has_tr = 0; nr++; }
+        }
+      R[nr].lhs = nn[d]; R[nr].n = last_empty ? 0 : 1; R[nr].rhs[0] = "b"; R[nr].anode = NULL; R[nr].cost = 0; R[nr].has_tr = 0; nr++;
     }
   else
     { /* one special occurrence: reserved / terminal / undeclared name as left-hand side or in a right-hand side, first or later rule */
